@@ -10,6 +10,7 @@ from __future__ import annotations
 import copy
 import json
 import os
+import re
 import random
 import subprocess
 import sys
@@ -65,6 +66,13 @@ def conditions(user, default):
 '''
 
 
+DEFAULT_USERS = [
+    {"qha": {"settings": {"NT": None, "DT": None}}, "elast": {"settings": {"symmetry": {"system": None}}}},
+    {"qha": {"input": None}, "elast": {"settings": {"mode_gamma": {"order": None}, "symmetry": {"drop_atol": None}}}, "output": {"volume_base": None}},
+    {"elast": {"input": None}, "extra_section": {"x": None}},
+]
+
+
 def gen_tree(rng, depth, prefix):
     n = rng.randint(1, 3)
     keys = rng.sample(ALPHABET, n)
@@ -110,12 +118,7 @@ def merge_module(pairs, defaults):
         src.append("def merge_%d(%s) -> bool:\n    \"\"\"\n    post: _\n    \"\"\"\n    return conditions(%s, %s)\n" % (i, args, us, ds))
         src.append("def twin_%d(%s) -> bool:\n    \"\"\"\n    post: False\n    \"\"\"\n    return conditions(%s, %s)\n" % (i, args, us, ds))
     # apply_default_config against the packaged defaults of the working tree
-    users = [
-        {"qha": {"settings": {"NT": None, "DT": None}}, "elast": {"settings": {"symmetry": {"system": None}}}},
-        {"qha": {"input": None}, "elast": {"settings": {"mode_gamma": {"order": None}, "symmetry": {"drop_atol": None}}}, "output": {"volume_base": None}},
-        {"elast": {"input": None}, "extra_section": {"x": None}},
-    ]
-    for i, u in enumerate(users):
+    for i, u in enumerate(DEFAULT_USERS):
         names = []
         us = render(u, names, "a")
         args = ", ".join("%s: int" % n for n in names)
@@ -162,38 +165,71 @@ def run_crosshair(chk, src, tag, timeout=60):
         return res, time.time() - t0
 
 
-def replay_merge(chk, u, d, name):
-    """Concrete replay of a failing merge condition with distinct integer leaves."""
-    from cij.io.config.config import update_config
-    cnt = [0]
+def cex_args(msgs, fname):
+    """Integer arguments of the counterexample CrossHair printed for `fname` ('... when calling f(0, -3, 5) ...'), or None."""
+    m = re.search(r"when calling %s\(([^)]*)\)" % re.escape(fname), msgs)
+    if not m:
+        return None
+    try:
+        return [int(x.split("=")[-1].strip()) for x in m.group(1).split(",") if x.strip()]
+    except ValueError:
+        return None
 
-    def fill(t):
-        out = {}
-        for k, v in t.items():
-            if isinstance(v, dict):
-                out[k] = fill(v)
-            else:
-                cnt[0] += 1
-                out[k] = cnt[0]
-        return out
-    user, default = fill(u), fill(d)
-    ns = {}
-    exec(PRELUDE.replace("from cij.io.config.config import update_config, apply_default_config", ""), dict(update_config=update_config,
-         apply_default_config=None, copy=copy), ns) if False else None
+
+def fill_tree(t, values, cnt):
+    out = {}
+    for k, v in t.items():
+        if isinstance(v, dict):
+            out[k] = fill_tree(v, values, cnt)
+        else:
+            out[k] = values[cnt[0]] if values is not None and cnt[0] < len(values) else cnt[0] + 1
+            cnt[0] += 1
+    return out
+
+
+def replay_merge(chk, u, d, name, args=None):
+    """Concrete replay of a failing merge condition: first with the solver's own leaf values, then with distinct integers."""
+    from cij.io.config.config import update_config
     g = dict(update_config=update_config, apply_default_config=None, copy=copy)
     exec(PRELUDE.split("from cij.io.config.config import update_config, apply_default_config")[1], g)
-    try:
-        ok = g["conditions"](copy.deepcopy(user), copy.deepcopy(default))
-        got = update_config(copy.deepcopy(user), copy.deepcopy(default))
-    except Exception as e:
-        chk.violation("merge:raises", "update_config raises %s: %s for user=%s default=%s" % (type(e).__name__, e, user, default),
-                      dict(user=user, default=default))
-        return
-    if not ok:
-        chk.violation("merge:wrong-result", "update_config(user=%s, default=%s) = %s violates the merge contract (expected %s)" % (
-            user, default, got, g["oracle"](user, default)), dict(user=user, default=default, got=got))
-    else:
-        chk.harness_error("%s: CrossHair counterexample did not reproduce concretely" % name)
+    for values in ([args] if args is not None else []) + [None]:
+        cnt = [0]
+        user = fill_tree(u, values, cnt)
+        default = fill_tree(d, values, cnt)
+        try:
+            ok = g["conditions"](copy.deepcopy(user), copy.deepcopy(default))
+            got = update_config(copy.deepcopy(user), copy.deepcopy(default))
+        except Exception as e:
+            chk.violation("merge:raises", "update_config raises %s: %s for user=%s default=%s" % (type(e).__name__, e, user, default),
+                          dict(user=user, default=default))
+            return
+        if not ok:
+            chk.violation("merge:wrong-result", "update_config(user=%s, default=%s) = %s violates the merge contract (expected %s)" % (
+                user, default, got, g["oracle"](user, default)), dict(user=user, default=default, got=got))
+            return
+    chk.harness_error("%s: CrossHair counterexample did not reproduce concretely" % name)
+
+
+def replay_defaults(chk, u, defaults, msgs, fname):
+    """Concrete replay of a failing apply_default_config condition with the solver's leaf values."""
+    from cij.io.config.config import apply_default_config
+    g = dict(update_config=None, apply_default_config=apply_default_config, copy=copy)
+    exec(PRELUDE.split("from cij.io.config.config import update_config, apply_default_config")[1], g)
+    args = cex_args(msgs, fname)
+    for values in ([args] if args is not None else []) + [None]:
+        user = fill_tree(u, values, [0])
+        try:
+            got = apply_default_config(copy.deepcopy(user))
+        except Exception as e:
+            chk.violation("apply-defaults:raises", "apply_default_config raises %s: %s for user=%s" % (type(e).__name__, e, user), dict(user=user))
+            return
+        want = g["oracle"](user, defaults)
+        if got != want:
+            bad = [".".join(p) for p, v in g["leaves"](want).items() if g["leaves"](got).get(p, "<missing>") != v]
+            chk.violation("apply-defaults:wrong", "apply_default_config(%s) differs from 'user over packaged defaults' at %s" % (user, bad[:4]),
+                          dict(user=user, got=got, want=want))
+            return
+    chk.harness_error("apply_default_config: CrossHair counterexample (%s) did not reproduce concretely" % msgs[:120])
 
 
 def merge_part(chk, tier, rng):
@@ -236,7 +272,7 @@ def merge_part(chk, tier, rng):
             chk.obligation(name[:160], v, solver="crosshair 0.0.110 / z3", logic="symbolic execution", kind="crosshair-condition",
                            detail=msgs[:160] if v != "unsat" else None)
             if v == "sat":
-                replay_merge(chk, u, d, name)
+                replay_merge(chk, u, d, name, cex_args(msgs, "merge_%d" % i))
             elif v == "unknown":
                 chk.inconclusive(name[:80], "CrossHair: %s" % (msgs[:100] or "no verdict"))
             if "false when calling" in tw:
@@ -251,7 +287,7 @@ def merge_part(chk, tier, rng):
                 chk.obligation("apply_default_config[user skeleton %d over the packaged defaults]" % i, v, solver="crosshair 0.0.110 / z3",
                                kind="crosshair-condition", detail=msgs[:160] if v != "unsat" else None)
                 if v == "sat":
-                    chk.violation("apply-defaults:wrong", "apply_default_config violates the merge contract: %s" % msgs[:200], {})
+                    replay_defaults(chk, DEFAULT_USERS[i], defaults, msgs, "defaults_%d" % i)
                 elif v == "unknown":
                     chk.inconclusive("apply_default_config %d" % i, msgs[:100])
                 if "false when calling" not in tw:
